@@ -284,6 +284,15 @@ func (p *tcpProc) OnSvcConfigUpdate(c *service.Config) error {
 			if err == nil {
 				p.hm.Start()
 			}
+		} else if newHC == nil {
+			// the health check has been removed from the configuration: stop
+			// checking. Every host counts as healthy again, as in a service
+			// started without a health check.
+			p.hm.Stop()
+			p.hm = nil
+			for _, h := range p.hostSet.All() {
+				p.hostSet.MarkHostHealthy(h)
+			}
 		} else {
 			err = p.hm.ResetHealthCheck(newHC)
 		}
